@@ -101,6 +101,7 @@ type world struct {
 	lastNext uint64
 	start    time.Time
 	gateMu   sync.Mutex
+	mn       interface{ Close() error }
 	gate     chan struct{} // closed once the harness' own clock.Add has returned (two concurrent Adds would race)
 }
 
@@ -115,7 +116,8 @@ func (w *world) waitGate() {
 
 func newWorld(set settings, npeers int, running bool) *world {
 	w := &world{set: set, waits: make(chan time.Duration, 4), peerHas: make([]int, npeers), peerFail: make([]bool, npeers)}
-	_, hs := vnet.Net(1 + npeers)
+	mn, hs := vnet.Net(1 + npeers)
+	w.mn = mn
 	ctx, clk := clock.WithMockClock(context.Background())
 	ctx = context.WithValue(ctx, worldKey{}, w)
 	w.clk = clk
@@ -191,6 +193,10 @@ func (w *world) stop() {
 		case <-w.done:
 		case <-time.After(10 * time.Second):
 		}
+	}
+	if w.mn != nil {
+		_ = w.mn.Close() // the hosts of a finished world (goroutines, buffers) must not pile up over a long run
+		w.mn = nil
 	}
 }
 
@@ -474,6 +480,7 @@ func main() {
 					}
 					chk.Distinct(fmt.Sprintf("p1/%d/%s/%d", npeers, stepsStr(seq[:i+1]), pr))
 				}
+				w.stop()
 			}
 		}
 		chk.Set("poll_round_cases", evals)
